@@ -281,6 +281,16 @@ json handle(Ctx &c, const json &rec) {
     else { types = {"Double", "String", ALL[(size_t) (c.seed % 10)]}; }
     std::vector<std::string> comps;
     if (c.opts.contains("compressions")) for (auto &t : c.opts["compressions"]) comps.push_back(t); else comps = {"None"};
+    if (c.opts.value("rotate", false)) {
+        // quick tier: element type and compression rotate with the line (a hash of its content, so a stored line replays alike):
+        // over the lines of one run every type and every compression setting takes its turn
+        std::string key = rec["pre"].dump() + rec["step"].dump();
+        unsigned long h = 1469598103934665603UL; for (unsigned char ch : key) { h ^= ch; h *= 1099511628211UL; }
+        h += (unsigned long) c.seed;
+        static const char *CS[] = {"None", "Deflate", "Auto"};
+        types = {"Double", (h / 7) % 2 ? "String" : "Bool", ALL[(size_t) (h % 12)]};
+        comps = {CS[(h / 12) % 3]};
+    }
     long evals = 0;
     for (auto &cn : comps) {
         nix::Compression comp = cn == "None" ? nix::Compression::None : cn == "Deflate" ? nix::Compression::DeflateNormal : nix::Compression::Auto;
